@@ -263,6 +263,9 @@ def init(vars):
     cmdline = vars.cmdline
     global highlight_style
     highlight_style = vars.highlight_style
+    global highlight_style_unsure
+    highlight_style_unsure = getattr(vars, 'highlight_style_unsure',
+                                        highlight_style)
     global number_style
     number_style = vars.number_style
     global msg_LT_server_html
